@@ -835,6 +835,16 @@ def plan_C11(tier):
         # raw on a non-container: false and nothing changes
     qs += sibling_queries(11, ("raw", "tw"))
     qs += exhaustive_script_queries(11, 6, 5, 8) if tier == "quick" else exhaustive_script_queries(11, 7, 6, 9)
+    # object context with equal-length SYMBOLIC names: what get_raw leaves behind at the parent level must not disturb the
+    # name bookkeeping of the following fields
+    from . import shapes as _s2
+    eq = [(r, n) for r, n in sibling_nodes() if r == 1][: (3 if tier == "quick" else 16)]
+    for root, node in eq:
+        rn = _s2.renamed(node, 1)
+        first = rn.children[0]
+        q = shape_script_query(11, rn, _s2.full_script(rn, plan={id(first): "raw"}), "sib-raw-eqnames", root, timeout=1500)
+        q.mem_gb = 5
+        qs.append(q)
     # parser_to_writer into a writer that the container fills EXACTLY (the two-pass sizing idiom)
     from . import shapes as _sh
     for root, node in sibling_nodes()[:16]:
@@ -998,6 +1008,8 @@ def print_query(propset, pmode, n, D, root, tcap=40, timeout=2400, extra=None, n
             "WIT_VALID": 1 if valid_exists(root, n) else 0}
     if pmode == 1:
         defs["FMT_LENGTH_ONLY"] = 1
+    if pmode in (2, 3):
+        defs["FMT_FIXED16"] = 1
     defs.update(extra or {})
     cb = "_binson_print_cb" if pmode == 3 else "_binson_to_string_cb"
     rfp = [("_advance_parsing.function_pointer_call.%d" % i, cb) for i in (1, 2, 3)]
@@ -1066,8 +1078,7 @@ def plan_C13(tier):
 def plan_C14(tier):
     qs = []
     for root, node in print_shapes(tier):
-        if tier == "quick" and node.children and node.children[0].kind in ("I8", "I4", "D") and len(node.children) == 1:
-            continue            # 20-digit / 66-character formatting loops: thorough only
+        # (integers and doubles are rendered by the fixed-width injective model FMT_FIXED16 in C14 queries)
         qs.append(shape_print_query(14, 2, node, root, tcap=64))
         qs.append(shape_print_query(14, 3, node, root, tcap=64))
     ns = (5, 6) if tier == "quick" else (5, 6, 7, 8, 9, 10)
@@ -1330,6 +1341,12 @@ def plan_C16(tier):
         qs += shape_variant_queries(16, root, 0, variants=("full", "skip", "leave", "raw") if tier != "quick" else ("full", "skip"),
                                     nodes=nodes, witness_every=8)
     qs += exhaustive_script_queries(16, 6, 5, 8) if tier == "quick" else exhaustive_script_queries(16, 7, 6, 9)
+    # to_string / print: the hex loop and the formatting paths must terminate for every capacity
+    from .shapes import Node as _N
+    for root, node in [(2, _N("A", [_N("B2")], [])), (2, _N("A", [_N("B1"), _N("T")], [])), (1, _N("O", [_N("B3")], [1])), (2, _N("A", [_N("S2"), _N("I1")], []))]:
+        q = shape_print_query(13, 1, node, root, tcap=24, timeout=1500)
+        q.name = q.name.replace("shapeprint.p13", "shapeprint.p16")
+        qs.append(q)
     # hostile input: arbitrary bytes, ops executed unconditionally, token count + unwinding assertions (termination)
     for s, n, root in ([(["GO", "N", "LO"], 4, 1), (["GA", "N", "LA"], 4, 2), (["GO", "F"], 5, 1), (["GA", "N", "N"], 4, 2), (["GO", "LO"], 5, 1), (["GA", "LA"], 5, 2)]
                        if tier == "quick" else
